@@ -4,6 +4,7 @@ import (
 	"go/ast"
 	"go/token"
 	"go/types"
+	"sort"
 	"strings"
 )
 
@@ -489,6 +490,46 @@ func init() {
 					r.Check(keys[v] >= 2, "imports/read-and-written", qi.Decl.Pos(), "the table is both read and written under that key (%d accesses)", keys[v])
 				}
 			}
+			// both strip sites cut at a path-segment boundary: the path is sliced after the last "vendor/"
+			// only when that occurrence starts the path or follows a '/'
+			for _, f := range []*FuncInfo{qi, c.Fn(c.W, "isWireImport")} {
+				if f == nil {
+					continue
+				}
+				found := 0
+				f.inspect(f.Decl.Body, func(nd ast.Node) bool {
+					as, ok := nd.(*ast.AssignStmt)
+					if !ok || len(as.Rhs) != 1 {
+						return true
+					}
+					se, ok := ast.Unparen(as.Rhs[0]).(*ast.SliceExpr)
+					if !ok || !isString(f.Info.TypeOf(se.X)) {
+						return true
+					}
+					found++
+					var cs []string
+					for _, g := range f.Guards(as) {
+						if f.isCall(g.Expr, "strings.LastIndex") == nil && !containsCallTo(f, g.Expr, "strings.LastIndex") {
+							continue // conditions that do not concern the vendor component (e.g. the own-package early return)
+						}
+						s := constSym(f, g.Expr)
+						if g.Neg {
+							s = "!" + s
+						}
+						cs = append(cs, s)
+					}
+					sort.Strings(cs)
+					got := strings.Join(cs, " ∧ ")
+					low := constSym(f, se.Low)
+					const li = `LastIndex(P,"vendor/")`
+					okG := got == "(("+li+"==0)||(P[("+li+"-1)]==47)) ∧ ("+li+"!=-1)"
+					okL := low == "("+li+"+7)"
+					r.Check(okG, f.Name+"/vendor-strip-at-segment-boundary", as.Pos(), "the vendor prefix is removed only when the last \"vendor/\" starts the path or follows '/' — guard: %s", got)
+					r.Check(okL, f.Name+"/vendor-strip-cut", as.Pos(), "the cut is right after that \"vendor/\" — low bound: %s", low)
+					return true
+				})
+				r.Check(found == 1, f.Name+"/vendor-strip-site", f.Decl.Pos(), "exactly one path-slicing site (%d)", found)
+			}
 			iw := r.Need(c.Fn(c.W, "isWireImport"), "isWireImport")
 			if iw != nil {
 				okS, okC := false, false
@@ -527,4 +568,67 @@ func placeholders(tok string) []string {
 		out = append(out, s)
 		tok = tok[i+j+len("⟩"):]
 	}
+}
+
+func isString(t types.Type) bool {
+	if t == nil {
+		return false
+	}
+	b, ok := t.Underlying().(*types.Basic)
+	return ok && b.Info()&types.IsString != 0
+}
+
+func containsCallTo(f *FuncInfo, e ast.Expr, name string) bool {
+	hit := false
+	ast.Inspect(e, func(nd ast.Node) bool {
+		if x, ok := nd.(ast.Expr); ok {
+			if f.isCall(f.deref(x), name) != nil {
+				hit = true
+			}
+		}
+		return true
+	})
+	return hit
+}
+
+// constSym prints an expression with constants folded to their values,
+// single-assignment locals replaced by their definition and string
+// parameters written P.
+func constSym(f *FuncInfo, e ast.Expr) string {
+	e = ast.Unparen(e)
+	if tv, ok := f.Info.Types[e]; ok && tv.Value != nil {
+		return tv.Value.ExactString()
+	}
+	switch x := e.(type) {
+	case *ast.Ident:
+		if v := f.varOf(x); v != nil {
+			if f.isParam(v) && isString(v.Type()) {
+				return "P"
+			}
+			if d := f.deref(x); d != ast.Expr(x) {
+				return constSym(f, d)
+			}
+		}
+		return x.Name
+	case *ast.BinaryExpr:
+		return "(" + constSym(f, x.X) + x.Op.String() + constSym(f, x.Y) + ")"
+	case *ast.UnaryExpr:
+		return x.Op.String() + constSym(f, x.X)
+	case *ast.IndexExpr:
+		return constSym(f, x.X) + "[" + constSym(f, x.Index) + "]"
+	case *ast.CallExpr:
+		var as []string
+		for _, a := range x.Args {
+			as = append(as, constSym(f, a))
+		}
+		n := f.calleeName(x)
+		if i := strings.LastIndex(n, "."); i >= 0 {
+			n = n[i+1:]
+		}
+		if n == "" {
+			n = types.ExprString(x.Fun)
+		}
+		return n + "(" + strings.Join(as, ",") + ")"
+	}
+	return types.ExprString(e)
 }
